@@ -747,13 +747,17 @@ static void case_direct(Src& s, Ctx& ctx) {
 // ---------------------------------------------------------------------------------------------- class C: hostile bodies
 // Fixed keys (so that saved inputs / corpus entries stay meaningful), installed for every address role.
 static const KeySet& hostile_keys(int cipher) {
-    static KeySet k40, k104, kp;
-    if (kp.ptk.empty()) {
-        kp.ptk = expand(4242, 80);
-        k40.ptk = kp.ptk; k104.ptk = kp.ptk;
-        k40.wep = expand(40, 5); k104.wep = expand(104, 13);
-    }
-    return cipher == WEP40 ? k40 : (cipher == WEP104 ? k104 : kp);
+    // initialised once, thread-safely (this TU is also a workload of the multi-threaded C18 check)
+    struct Keys {
+        KeySet k40, k104, kp;
+        Keys() {
+            kp.ptk = expand(4242, 80);
+            k40.ptk = kp.ptk; k104.ptk = kp.ptk;
+            k40.wep = expand(40, 5); k104.wep = expand(104, 13);
+        }
+    };
+    static const Keys K;
+    return cipher == WEP40 ? K.k40 : (cipher == WEP104 ? K.k104 : K.kp);
 }
 static void case_hostile(Src& s, Ctx& ctx) {
     int cipher = (int)s.weighted({1, 2, 4, 5});
